@@ -5,7 +5,7 @@
 EXTENDS MiddlewareAlgebra, FiniteSets
 CONSTANT MaxChain
 
-Names == {"Timeout", "CorrelationID", "Recoverer", "IgnoreErrors", "InstantAck", "Throttle", "CircuitBreaker", "DelayOnError", "Retry", "Duplicator"}
+Names == {"Timeout", "CorrelationID", "Recoverer", "IgnoreErrors", "InstantAck", "Throttle", "CircuitBreaker", "DelayOnError", "Retry", "Duplicator", "RandomFail", "RandomPanic"}
 \* middlewares that do not change the error the caller sees
 ErrorNeutral == {"Timeout", "CorrelationID", "InstantAck", "Throttle", "CircuitBreaker", "DelayOnError"}
 Out(id, corr) == [id |-> id, corr |-> corr]
